@@ -42,6 +42,7 @@ def main():
     ev = json.load(open(evp))
     t0 = time.time()
     seeds = []
+    jobs = []
     for d in sorted(glob.glob(os.path.join(VERIF, "seeded", "*"))):
         mp = os.path.join(d, "meta.json")
         if not os.path.exists(mp):
@@ -52,34 +53,45 @@ def main():
         if str(meta.get("status", "")).startswith("obsolete"):
             seeds.append({"seed": os.path.basename(d), "result": "obsolete (neutralised by a repair of /repo)"})
             continue
+        jobs.append(("seed", os.path.basename(d), os.path.join(d, "patch.diff")))
+    for pd in sorted(glob.glob(os.path.join(VERIF, "mutants", "preserve", "*.diff"))):
+        jobs.append(("preserve", os.path.basename(pd), pd))
+
+    def replay(job):
+        kind, name, patch = job
         sc = scratch_copy()
         try:
-            r = subprocess.run(["patch", "-p1", "-s", "-d", os.path.join(sc, "repo"), "-i", os.path.join(d, "patch.diff")], capture_output=True, text=True)
+            r = subprocess.run(["patch", "-p1", "-s", "-d", os.path.join(sc, "repo"), "-i", patch], capture_output=True, text=True)
             if r.returncode != 0:
-                seeds.append({"seed": os.path.basename(d), "result": "patch no longer applies"})
-                continue
+                return kind, name, None, ""
             rc, out = analyse(os.path.join(sc, "repo"), prop, os.path.join(sc, "out"))
-            viol = [l for l in out.splitlines() if l.startswith("  violated") or l.startswith("  undecided")]
-            seeds.append({"seed": os.path.basename(d), "result": "caught" if "VIOLATION property=" + prop in out else "missed",
-                          "reported": [v.strip()[:300] for v in viol[:3]]})
+            return kind, name, rc, out
         finally:
             shutil.rmtree(sc, ignore_errors=True)
+
     false_alarms = []
     preserved = []
-    for pd in sorted(glob.glob(os.path.join(VERIF, "mutants", "preserve", "*.diff"))):
-        sc = scratch_copy()
-        try:
-            r = subprocess.run(["patch", "-p1", "-s", "-d", os.path.join(sc, "repo"), "-i", pd], capture_output=True, text=True)
-            if r.returncode != 0:
-                preserved.append({"variant": os.path.basename(pd), "result": "patch no longer applies"})
+    import concurrent.futures as cf
+    workers = int(os.environ.get("VERIF_WORKERS", "6"))
+    with cf.ThreadPoolExecutor(max_workers=workers) as ex:
+        results = list(ex.map(replay, jobs))
+    for kind, name, rc, out in results:
+        if kind == "seed":
+            if rc is None:
+                seeds.append({"seed": name, "result": "patch no longer applies"})
                 continue
-            rc, out = analyse(os.path.join(sc, "repo"), prop, os.path.join(sc, "out"))
+            viol = [l for l in out.splitlines() if l.startswith("  violated") or l.startswith("  undecided")]
+            seeds.append({"seed": name, "result": "caught" if "VIOLATION property=" + prop in out else "missed",
+                          "reported": [v.strip()[:300] for v in viol[:3]]})
+        else:
+            if rc is None:
+                preserved.append({"variant": name, "result": "patch no longer applies"})
+                continue
             ok = "VIOLATION property=" + prop not in out and rc in (0,)
-            preserved.append({"variant": os.path.basename(pd), "result": "silent" if ok else "ALARM"})
+            preserved.append({"variant": name, "result": "silent" if ok else "ALARM"})
             if not ok:
-                false_alarms.append(os.path.basename(pd))
-        finally:
-            shutil.rmtree(sc, ignore_errors=True)
+                false_alarms.append(name)
+    seeds.sort(key=lambda x: x["seed"])
     # cross-reference (advisory)
     cross = {}
     anchors = []
